@@ -290,4 +290,143 @@ theorem walkLoop_cfiG_chain {env : Env} {a : Arch} {w : World} {mem : Mem} (harc
       exact step_cfi_end harch hcfi hok0 f g hinv he')
     chain n f g st hv hp hn
 
+/-! ### the registers of the expected frame -/
+
+theorem assocGet_assocSet_ne (l : List (String × Nat)) (k k' : String) (v : Nat) (h : k ≠ k') :
+    assocGet (assocSet l k v) k' = assocGet l k' := by
+  induction l with
+  | nil => simp [assocSet, assocGet, h]
+  | cons p l ih =>
+    obtain ⟨k₀, v₀⟩ := p
+    by_cases h0 : k₀ = k
+    · subst h0; simp [assocSet, assocGet, h]
+    · by_cases h1 : k₀ = k'
+      · subst h1; simp [assocSet, assocGet, h0]
+      · simp [assocSet, assocGet, h0, h1, ih]
+
+theorem assocGet_foldl_not_mem (F : Nat → Nat) (L : List (String × Nat)) (r : String) :
+    ∀ (rest : List (String × Nat)), r ∉ L.map (·.1) →
+      assocGet (L.foldl (fun rest g => assocSet rest g.1 (F g.2)) rest) r = assocGet rest r := by
+  induction L with
+  | nil => intro rest _; rfl
+  | cons g L ih =>
+    intro rest h
+    simp only [List.map_cons, List.mem_cons, not_or] at h
+    simp only [List.foldl_cons]
+    rw [ih _ h.2, assocGet_assocSet_ne _ _ _ _ (Ne.symm h.1)]
+
+theorem assocGet_foldl_mem (F : Nat → Nat) (L : List (String × Nat)) (r : String) (lit : Nat) :
+    ∀ (rest : List (String × Nat)), (L.map (·.1)).Nodup → (r, lit) ∈ L →
+      assocGet (L.foldl (fun rest g => assocSet rest g.1 (F g.2)) rest) r = F lit := by
+  induction L with
+  | nil => intro rest _ h; cases h
+  | cons g L ih =>
+    intro rest hnd hm
+    simp only [List.map_cons, List.nodup_cons] at hnd
+    simp only [List.foldl_cons]
+    rcases List.mem_cons.mp hm with h | h
+    · subst h
+      rw [assocGet_foldl_not_mem F L _ _ hnd.1, assocGet_assocSet_same]
+    · exact ih _ hnd.2 h
+
+theorem lookup_some_mem {l : List (String × Nat)} {r : String} {v : Nat} (h : l.lookup r = some v) :
+    (r, v) ∈ l := by
+  induction l with
+  | nil => cases h
+  | cons p l ih =>
+    obtain ⟨k, x⟩ := p
+    simp only [List.lookup_cons] at h
+    split at h
+    · rename_i hk
+      have : r = k := by simpa using hk
+      cases h; subst this; exact List.mem_cons_self
+    · exact List.mem_cons_of_mem _ (ih h)
+
+theorem lookup_none_not_mem {l : List (String × Nat)} {r : String} (h : l.lookup r = none) :
+    r ∉ l.map (·.1) := by
+  induction l with
+  | nil => simp
+  | cons p l ih =>
+    obtain ⟨k, x⟩ := p
+    simp only [List.lookup_cons] at h
+    split at h
+    · cases h
+    · rename_i hk
+      have hne : ¬ r = k := by simpa using hk
+      simp only [List.map_cons, List.mem_cons, not_or]
+      exact ⟨hne, ih h⟩
+
+/-- the groups of a linked frame's record have pairwise distinct names -/
+theorem cfiLinkG_nodup {a : Arch} {w : World} {mask : Nat} {mem : Mem} {f : Frame} {e : Exp}
+    (hl : cfiLinkG w a mask mem f e = true) : ((savedAt w f.instruction).map (·.1)).Nodup := by
+  unfold cfiLinkG at hl
+  simp only [Bool.and_eq_true] at hl
+  obtain ⟨_, hm⟩ := hl
+  unfold savedAt
+  cases hrec : cfiRecordAt w f.instruction with
+  | none => rw [hrec] at hm; cases hm
+  | some rec =>
+    rw [hrec] at hm
+    simp only [Bool.and_eq_true] at hm
+    obtain ⟨⟨⟨_, hshape⟩, _⟩, _⟩ := hm
+    split at hshape
+    · rename_i hleaf
+      simp only [hleaf.2.2, groupsOf_leaf, Option.getD_some, List.map_nil]
+      exact List.nodup_nil
+    · simp only [Bool.and_eq_true, decide_eq_true_eq] at hshape
+      exact hshape.1.2
+
+theorem raw_calleeSaved {a : Arch} {r : String} (c : Ctx) (h : a.calleeSaved.contains r = true)
+    (hsp : r ≠ a.spName) : c.raw a r = assocGet c.rest r := by
+  obtain ⟨hc, hip⟩ := canon_calleeSaved h
+  simp [Ctx.raw, hc, hip, hsp]
+
+/-- **the expected frame holds, in every callee-saved register, its slot word where the record
+    saves it and the callee's value otherwise** -/
+theorem cfiFrameG_reg {a : Arch} {w : World} {mask : Nat} {mem : Mem} {f : Frame} {e : Exp}
+    (hl : cfiLinkG w a mask mem f e = true) {r : String} (hr : a.calleeSaved.contains r = true)
+    (hsp : r ≠ a.spName) :
+    (cfiFrameG w a mask mem f e).ctx.raw a r = callerReg a mask mem (savedAt w f.instruction) f e r := by
+  have hnd := cfiLinkG_nodup hl
+  have hperm : (byName (savedAt w f.instruction)).Perm (savedAt w f.instruction) := List.mergeSort_perm _ _
+  have hnd' : ((byName (savedAt w f.instruction)).map (·.1)).Nodup :=
+    (hperm.map (fun g : String × Nat => g.1)).nodup_iff.mpr hnd
+  rw [raw_calleeSaved _ hr hsp]
+  -- the value after the groups have been applied
+  have h1 : assocGet ((byName (savedAt w f.instruction)).foldl
+      (fun rest g => assocSet rest g.1 (slotWord a mem e.sp g.2)) f.ctx.rest) r =
+      match (savedAt w f.instruction).lookup r with
+      | some lit => slotWord a mem e.sp lit
+      | none => f.ctx.raw a r := by
+    cases hlk : (savedAt w f.instruction).lookup r with
+    | some lit =>
+      have hm : (r, lit) ∈ byName (savedAt w f.instruction) := List.mem_mergeSort.mpr (lookup_some_mem hlk)
+      exact assocGet_foldl_mem (slotWord a mem e.sp) _ r lit _ hnd' hm
+    | none =>
+      have hm : r ∉ (byName (savedAt w f.instruction)).map (·.1) := by
+        intro hin
+        obtain ⟨g, hg, hgr⟩ := List.mem_map.mp hin
+        exact lookup_none_not_mem hlk (List.mem_map.mpr ⟨g, List.mem_mergeSort.mp hg, hgr⟩)
+      rw [assocGet_foldl_not_mem (slotWord a mem e.sp) _ r _ hm, raw_calleeSaved _ hr hsp]
+  unfold cfiFrameG callerReg
+  simp only [stripOf_eq]
+  by_cases h64 : a = .arm64 ∨ a = .arm64old
+  · simp only [if_pos h64, fpName_arm64 h64]
+    by_cases hfp : r = "fp"
+    · subst hfp
+      rw [if_pos rfl, assocGet_assocSet_same, h1]
+    · rw [if_neg hfp, assocGet_assocSet_ne _ _ _ _ (Ne.symm hfp), h1]
+  · simp only [if_neg h64, ite_self, h1]
+
+theorem fpName_calleeSaved (a : Arch) : a.calleeSaved.contains a.fpName = true ∧ a.fpName ≠ a.spName := by
+  cases a <;> decide
+
+theorem has_calleeSaved {a : Arch} {c : Ctx} {r : String} (hv : c.valid = some (validAfter a))
+    (hr : a.calleeSaved.contains r = true) : c.has a r = true := by
+  have hall : a.calleeSaved.all (fun r => (a.aliases r).any fun n => (validAfter a).contains n) = true := by
+    cases a <;> decide
+  have hm : r ∈ a.calleeSaved := by simpa using hr
+  have := List.all_eq_true.mp hall r hm
+  simpa [Ctx.has, hv] using this
+
 end MdModel.Walk
